@@ -721,7 +721,7 @@ func (e *SpecEnv) call(n *CallE) Val {
 		return Term{app("roundhalf", argT(0).S), intT}
 	case "fresh": // object allocated after function entry
 		r := e.evalRef(n.Args[0])
-		return Term{app(">=", r, e.entryAlloc), boolT}
+		return Term{and(app(">=", r, e.entryAlloc), app("<", r, e.st.allocCtr)), boolT}
 	case "allocated": // object exists in the state the expression is evaluated in
 		r := e.evalRef(n.Args[0])
 		return Term{and(app("<", "0", r), app("<", r, e.st.allocCtr)), boolT}
